@@ -236,7 +236,72 @@ def expected_full_name(item):
   return f"{'Leaf' if c[0] == 0 else 'Leaf2'}__T_{T}__k_{k}__inc_{inc}__tag_{tag}__opt_{opt}"
 
 
+SUBTREE_SRC = """
+from pymtl3 import *
+class Inner(Component):
+  def construct(s, k=1):
+    s.i = InPort(8); s.o = OutPort(8)
+    K = int(k) & 7
+    @update
+    def up(): s.o @= s.i + K
+class InnerB(Component):
+  def construct(s, k=1):
+    s.i = InPort(8); s.o = OutPort(8)
+    @update
+    def up(): s.o @= s.i ^ 0x55
+class Mid(Component):
+  def construct(s):
+    s.i = InPort(8); s.o = OutPort(8)
+    s.inner = Inner()
+    s.inner.i //= s.i; s.o //= s.inner.o
+class Cat(Component):
+  def construct(s, ws):
+    s.i = InPort(8); s.o = OutPort(8)
+    K = sum(ws) & 7
+    @update
+    def up(): s.o @= s.i + K
+class STop(Component):
+  def construct(s, variant):
+    s.i = InPort(8); s.oa = OutPort(8); s.ob = OutPort(8)
+    if variant == "mutated-list":
+      ws = [1]
+      s.a = Cat(ws)
+      ws.append(2)               # the configuration list goes on growing between the two instantiations
+      s.b = Cat(ws)
+    else:
+      s.a = Mid(); s.b = Mid()
+    s.a.i //= s.i; s.b.i //= s.i; s.oa //= s.a.o; s.ob //= s.b.o
+"""
+
+
+def run_subtree_probe(sh):
+  """probe stream for the listed findings F-N5 / F-N6: two instances of one class with the same construct parameters whose
+  hardware differs all the same - a sub-component BELOW one of them got another parameter (set_param on the grandchild) or was
+  replaced (replace_component), or the parameter object (a list) was mutated between the two instantiations.  The translated
+  text is co-simulated against the PyMTL simulation; a module shared by the two instances shows as a wrong output."""
+  for variant in ("set_param-below", "replace-below", "mutated-list", "control"):
+    mod = G.load_source(SUBTREE_SRC, "c13sub")
+    try:
+      top = mod.STop(variant)
+      if variant == "set_param-below": top.set_param("top.b.inner.construct", k=4)
+      top.elaborate()
+      if variant == "replace-below": top.replace_component(top.b.inner, mod.InnerB)
+      mech = {"set_param-below": "subtree-differs-below-instances-of-one-module-name", "replace-below": "subtree-differs-below-instances-of-one-module-name",
+              "mutated-list": "parameter-object-mutated-after-construction"}.get(variant)
+      def mech_fn(kind, w, mech=mech):
+        return mech if kind in ("output-differs-from-pymtl-simulation", "emitted-text-does-not-parse-or-elaborate") else None
+      r = trcommon.judge_text(sh, "sv", top, "subtree-probe:" + variant, SUBTREE_SRC, ("subtree", variant), mech_fn, ncyc=6, rng=sh.rng("subtree", variant),
+                              count_key="subtree_probe_designs")
+      sh.count("subtree_probes")
+      if variant == "control" and r: sh.count("subtree_probe_control_ok")
+    except Exception as e:
+      sh.inconclusive("subtree-probe-harness:" + type(e).__name__)
+    finally:
+      G.unload(mod)
+
+
 def run_shard(sh):
+  if sh.params["part"] == 0: run_subtree_probe(sh)
   rng = sh.rng("c13")
   items = []
   for c in range(sh.params["designs"]):
